@@ -47,6 +47,24 @@ def call_(I, fn, args, kwargs, site=None):
         return I.B.call_typeof(I, fn, args, kwargs)
     if isinstance(fn, I.B.NativeObj):
         return fn.call(I, args, kwargs)
+    if isinstance(fn, SV) and isinstance(I.ctx.resolve_ty(fn.ty), TAny):
+        # an untyped reference whose class the heap settles (an object built on this very path and read back from an attribute)
+        ctx = I.ctx
+        cidt = z3.simplify(z3.Select(ctx.field_array("$cls"), Z.Val.id(fn.t)))
+        if z3.is_app(cidt) and cidt.decl().kind() == z3.Z3_OP_SELECT:
+            cidt = z3.simplify(ctx._resolve_select(cidt))
+        if z3.is_int_value(cidt):
+            k = I.E.classes.by_id.get(cidt.as_long())
+            if isinstance(k, ClassInfo):
+                ty = TObj(k.key)
+                ty.cls = k
+                fn = SV(fn.t, ty)
+    if isinstance(fn, SV) and isinstance(I.ctx.resolve_ty(fn.ty), TObj):
+        # an instance of a repository class is called: its class's __call__
+        ty = I.ctx.resolve_ty(fn.ty)
+        owner, mem = I.repo.lookup_member(ty.cls, "__call__")
+        if isinstance(mem, FunctionInfo):
+            return invoke(I, mem, [fn] + list(args), kwargs, [], owner or mem.cls, None)
     raise Unsupported("call of %r" % (fn,))
 
 
